@@ -265,7 +265,33 @@ def _plus(e, k):
     return False
 
 
+def clause_waiters(ctx, P):
+    """liveness, structural part: a service that is told to wait for a probe (is_probing_done == false) is on that
+    probe's waiting list, so the end of the probe wakes it"""
+    f = P.one("DnsRegistry::is_probing_done")
+    tr = tracer(P, f)
+    sidx = None
+    for l in range(1, f.argc + 1):
+        if f.locals[l].get("name") == "service_name":
+            sidx = l
+    ins = []
+    for b, t in f.calls():
+        if name_matches(cname(t), "HashSet::insert") and recv_is_field(P, f, b, t, "waiting_services", "Probe"):
+            e = arg_expr(tr, f, b, t, 1)
+            if sidx is not None and any(x == ("param", sidx) for x in walk(e)):
+                ins.append(b)
+    ctx.require(bool(ins) and sidx is not None, "C07g.anchor", f.name, f.loc(), "%d insertions of service_name into Probe.waiting_services" % len(ins))
+    falses = [b for b, i, s in f.assigns() if not s["p"]["proj"] and s["p"]["l"] == 0 and s["r"]["k"] == "use" and s["r"]["a"].get("val") in (0, False)]
+    ctx.require(bool(falses), "C07g.anchor", f.name + "|return false", f.loc(), "%d `false` results" % len(falses))
+    for k, b in enumerate(sorted(falses)):
+        ok = must_pass_blocks(f, b, ins)
+        ctx.ob("C07g.waiter-registered", "%s|return false#%d" % (f.name, k + 1), ok, f.loc(b),
+               "every path to this `false` registers the service on the probe's waiting list" if ok else
+               "the service is told to wait (false) on a path that never adds it to Probe.waiting_services: nothing wakes it when the probe ends")
+
+
 def run(ctx, P):
+    clause_waiters(ctx, P)
     clause_a(ctx, P)
     clause_b(ctx, P)
     clause_c(ctx, P)
